@@ -200,6 +200,7 @@ class AFMReader(TextToModel):
         ]
         binary_operations_map = {
             "REQUIRES": ASTOperation.REQUIRES,
+            "IMPLIES": ASTOperation.IMPLIES,
             "EXCLUDES": ASTOperation.EXCLUDES,
             "OR": ASTOperation.OR,
             "AND": ASTOperation.AND,
